@@ -37,6 +37,31 @@ def observe(dec, d, raw_def, payload, used=False):
     return None, msg
 
 
+ACCESSOR_CLASSES = {"base", "allzero", "empty0", "emptyff", "zero", "one", "allones", "sentinel", "text0", "text1", "again"}
+
+
+def via_accessors(msg):
+    """a copy of the message whose field values are what the accessors return (ids that occur twice keep their own value:
+    get_field_by_id names the first)"""
+    import copy
+    import dataclasses
+    ids = [f.id for f in msg.fields]
+    out = copy.copy(msg)
+    out.fields = []
+    for f in msg.fields:
+        v = f.value
+        if ids.count(f.id) == 1:
+            g = msg.get_field_by_id(f.id)
+            if g is not f:
+                raise ValueError(f"get_field_by_id({f.id!r}) returned another field")
+            if isinstance(v, str) or v is None:
+                v = msg.get_field_str_value_by_id(f.id)
+            elif isinstance(v, int) and not isinstance(v, bool):
+                v = msg.get_field_int_value_by_id(f.id)
+        out.fields.append(dataclasses.replace(f, value=v))
+    return out
+
+
 def record(db, raw, tier: str, seed: int, wd=None):
     from nmea2000.decoder import NMEA2000Decoder
     rng = random.Random(seed)
@@ -65,6 +90,20 @@ def record(db, raw, tier: str, seed: int, wd=None):
                 o.update(project.pmsg(msg, dd, raw_by_id.get(msg.id)))
             recs.append(o)
             meta.append((d["id"], tag))
+            # the field values as the message's accessors hand them out (get_field_by_id / get_field_str_value_by_id /
+            # get_field_int_value_by_id), for the payload classes where "empty", "zero" and "absent" lie next to each other
+            if recs[-1]["ret"] == "msg" and tag.split(":")[-1] in ACCESSOR_CLASSES:
+                o2 = observe(dec, d, raw_by_id[d["id"]], payload)
+                if isinstance(o2, tuple):
+                    try:
+                        shadow = via_accessors(o2[1])
+                        o2 = {"pgn": d["pgn"], "p": list(payload), "ret": "msg", "err": ""}
+                        o2.update(project.pmsg(shadow, by_id.get(shadow.id), raw_by_id.get(shadow.id)))
+                    except Exception as e:       # noqa: BLE001
+                        o2 = {"pgn": d["pgn"], "p": list(payload), "ret": "err", "hdr": {"pgn": 0, "id": "", "desc": "", "ttl": -1},
+                              "f": [], "err": f"accessor: {type(e).__name__}: {e}"[:160]}
+                    recs.append(o2)
+                    meta.append((d["id"], f"{tag}/accessors"))
             # the other ways a message is obtained: from a decoder that also writes a dump file (all messages / a filter that
             # names another PGN), and looked at again after it has been serialised and queried once
             if tag == "again":
